@@ -4024,6 +4024,117 @@ def inline_package_methods(tree, modname):
   return count
 
 
+def inline_closure_factories(tree, modname, table=None):
+  """A new module-level function that only builds and returns a closure
+       def make_g(a, b):  def g(...): ...a...b...;  return g
+  is undone at its call sites `make_g(x, y)` (x, y plain names bound once in the caller): the closure is defined there, over
+  the caller's own variables, as it is on the reference tree."""
+  table = table if table is not None else _load_table()
+  ref_mod = table.get(modname)
+  if not ref_mod:
+    return 0
+  from .canon import _functions
+  count = 0
+  for _round in range(4):
+    done = False
+    for F in [st for st in tree.body if isinstance(st, ast.FunctionDef)]:
+      if '%s.%s' % (modname, F.name) in ref_mod or F.decorator_list:
+        continue
+      a = F.args
+      if a.vararg or a.kwarg or a.kwonlyargs or a.posonlyargs or a.defaults:
+        continue
+      body = list(F.body)
+      if body and isinstance(body[0], ast.Expr) and isinstance(body[0].value, ast.Constant) and isinstance(body[0].value.value, str):
+        body = body[1:]
+      if not (len(body) == 2 and isinstance(body[0], ast.FunctionDef) and isinstance(body[1], ast.Return)
+              and isinstance(body[1].value, ast.Name) and body[1].value.id == body[0].name):
+        continue
+      g = body[0]
+      params = [x.arg for x in a.args]
+      gl = {x.id for x in ast.walk(g) if isinstance(x, ast.Name) and isinstance(x.ctx, ast.Store)} | {x.arg for x in ast.walk(g.args) if isinstance(x, ast.arg)}
+      if set(params) & gl:
+        continue
+      parents = {}
+      for n in ast.walk(tree):
+        for c in ast.iter_child_nodes(n):
+          parents[id(c)] = n
+      refs = [n for n in ast.walk(tree) if isinstance(n, ast.Name) and n.id == F.name and isinstance(n.ctx, ast.Load)]
+      if not refs:
+        continue
+      plans = []
+      for r in refs:
+        call = parents.get(id(r))
+        if not (isinstance(call, ast.Call) and call.func is r and not call.keywords and len(call.args) == len(params)
+                and all(isinstance(x, ast.Name) for x in call.args)):
+          plans = None
+          break
+        # the statement and function holding the call
+        st, H = call, None
+        while id(st) in parents and not isinstance(st, ast.stmt):
+          st = parents[id(st)]
+        cur = st
+        while id(cur) in parents:
+          cur = parents[id(cur)]
+          if isinstance(cur, (ast.FunctionDef, ast.AsyncFunctionDef)):
+            H = cur
+            break
+        if H is None or H is F:
+          plans = None
+          break
+        hp = {x.arg for x in ast.walk(H.args) if isinstance(x, ast.arg)}
+        for x in call.args:
+          stores = sum(1 for n in _own_walk(H) if isinstance(n, ast.Name) and n.id == x.id and isinstance(n.ctx, (ast.Store, ast.Del)))
+          if not ((x.id in hp and stores == 0) or (x.id not in hp and stores == 1)):
+            # re-bound in the caller: allowed only when every binding precedes the call lexically at the top level of H
+            tops = [i for i, s_ in enumerate(H.body) if any(isinstance(n, ast.Name) and n.id == x.id and isinstance(n.ctx, (ast.Store, ast.Del)) for n in ast.walk(s_))]
+            here = next((i for i, s_ in enumerate(H.body) if any(n is call for n in ast.walk(s_))), None)
+            if here is None or any(i >= here for i in tops):
+              plans = None
+              break
+        if plans is None:
+          break
+        if any(isinstance(n, ast.Name) and n.id == g.name for n in _own_walk(H)) or any(isinstance(n, ast.FunctionDef) and n.name == g.name for n in _own_walk(H)):
+          plans = None
+          break
+        holder = parents.get(id(st))
+        plans.append((call, st, holder, H))
+      if not plans:
+        continue
+      for call, st, holder, H in plans:
+        newg = copy.deepcopy(g)
+        m = {p_: x for p_, x in zip(params, call.args) if p_ != x.id}
+        if m:
+          class R(ast.NodeTransformer):
+            def visit_Name(self, n):
+              if n.id in m and isinstance(n.ctx, ast.Load):
+                return ast.copy_location(ast.Name(id=m[n.id].id, ctx=ast.Load()), n)
+              return n
+          newg = R().visit(newg)
+        ast.copy_location(newg, st)
+        for fld in ('body', 'orelse', 'finalbody'):
+          lst = getattr(holder, fld, None)
+          if isinstance(lst, list) and st in lst:
+            lst.insert(lst.index(st), newg)
+            break
+        par = parents.get(id(call))
+        rep = ast.copy_location(ast.Name(id=g.name, ctx=ast.Load()), call)
+        for fld, v in ast.iter_fields(par):
+          if v is call:
+            setattr(par, fld, rep)
+          elif isinstance(v, list):
+            for j, x in enumerate(v):
+              if x is call:
+                v[j] = rep
+      tree.body.remove(F)
+      ast.fix_missing_locations(tree)
+      count += 1
+      done = True
+      break
+    if not done:
+      break
+  return count
+
+
 def lifted_candidates(tree, modname, table=None):
   """Names of new module-level functions that look like a reference closure that is missing now."""
   table = table if table is not None else _load_table()
@@ -4158,6 +4269,7 @@ def normalize(tree, modname):
   a += inline_package_methods(tree, modname)
   a += inline_expression_helpers(tree, modname)
   a += inline_generators(tree, modname)
+  a += inline_closure_factories(tree, modname)
   a += unlift(tree, modname)
   cands = lifted_candidates(tree, modname)
   if cands:
